@@ -594,15 +594,20 @@ UnlockExit(byException) ==
   /\ out' = [op |-> "UnlockExit", byException |-> byException, before |-> locked, status |-> "ok"]
   /\ UNCHANGED <<reg, cfg, stack, okeys, oper, interactive, singles, consts, hooks>>
 
-\* registering one more (valid, new) configurable: only the lock matters here (1677-1679);
+\* registering one more (valid) configurable: the lock comes first (1704-1706), then - for a full name that is
+\* already taken by another object - interactive mode decides between rejection and replacement (1719-1725);
 \* the full validation order of _make_configurable is GinRegister.tla
 Register(c) ==
   /\ "Register" \in Enabled
   /\ c \in FreshConfs /\ c \notin reg
-  /\ IF locked
+  /\ LET clash == \E e \in reg : e.sel = c.sel IN
+     IF locked
      THEN /\ out' = [op |-> "Register", conf |-> c, status |-> "RuntimeError"]
           /\ UNCHANGED reg
-     ELSE /\ reg' = reg \cup {c}
+     ELSE IF clash /\ ~interactive
+     THEN /\ out' = [op |-> "Register", conf |-> c, status |-> "ValueError"]
+          /\ UNCHANGED reg
+     ELSE /\ reg' = { e \in reg : e.sel # c.sel } \cup {c}
           /\ out' = [op |-> "Register", conf |-> c, status |-> "ok"]
   /\ UNCHANGED <<cfg, stack, okeys, oper, locked, usaved, interactive, singles, consts, hooks>>
 
